@@ -28,7 +28,10 @@ import semantic
 import wire
 
 LEAN_MODULES = ["PySMT.Props.C11"]
-RULE = ("rule-directed enumeration (every connective over a palette: symbols, their negations, True/False, theory atoms, "
+RULE = ("instance reuse: sequences of 2-3 formulas sharing sub-formulas / applications through ONE CNFizer / "
+        "PolarityCNFizer / Ackermannizer instance, every result checked by S (K: CNF results against the per-call model "
+        "modulo the persistent variable table; Ackermann results of a reused instance are S-only, the model is per call); "
+        "rule-directed enumeration (every connective over a palette: symbols, their negations, True/False, theory atoms, "
         "Boolean array reads, predicates, nested connectives; negated roots; IFF/ITE with constants) + type-directed random "
         "QF formulas (shared sub-formulas, nested applications f(g(x)+1), predicates, ITE at term and Boolean level); "
         "a CNF case is non-trivial when at least one definition variable occurs in the result, an Ackermann case when at "
@@ -49,10 +52,15 @@ CONNECTIVES = (op.AND, op.OR, op.NOT, op.IMPLIES, op.IFF)
 
 # ------------------------------------------------------------------------------------------ generation
 class Case:
-    __slots__ = ("kind", "f", "idx", "stream")
+    """`group`: cases of one group go, in order, through ONE converter instance (instance reuse: the
+    memoisation / `_introduced_variables` / `_terms_dict` / `_funs_to_args` tables persist between the calls);
+    `ctxf`: the formula whose free symbols the sampled interpretations cover (the whole group)"""
+    __slots__ = ("kind", "f", "idx", "stream", "group", "pos", "ctxf", "prev")
 
-    def __init__(self, kind, f, idx, stream):
+    def __init__(self, kind, f, idx, stream, group=None, pos=0, ctxf=None):
         self.kind, self.f, self.idx, self.stream = kind, f, idx, stream
+        self.group, self.pos, self.ctxf = group, pos, (ctxf if ctxf is not None else f)
+        self.prev = []
 
 
 def palette(m, uni):
@@ -223,7 +231,35 @@ def gen_cases(rng, tier):
             continue
         cases.append(("ack", f, "random"))
         n_ack -= 1
-    return env, uni, [Case(k, f, i, s) for i, (k, f, s) in enumerate(cases)]
+    out = [Case(k, f, i, s) for i, (k, f, s) in enumerate(cases)]
+    # ---- instance reuse: sequences of 2-3 formulas sharing sub-formulas / applications through one instance
+    seqs = []
+    conv = converse_shapes(m, uni)
+    step = 5 if tier == "quick" else 1
+    for i in range(0, len(conv) - 2, step):
+        seqs.append(("cnf", conv[i:i + 3]))
+    pal = palette(m, uni)
+    for C in (m.And, m.Or, m.Implies, m.Iff):
+        for a, b in ((pal[0], pal[1]), (pal[5], pal[2]), (pal[9], pal[7])):
+            g = C(a, b)
+            seqs.append(("cnf", [g, m.Not(g), m.And(pal[1], m.Or(g, pal[3]))]))
+            seqs.append(("cnf", [m.Or(pal[0], m.Not(g)), g]))
+    shp = ack_shapes(m, uni)
+    stepa = 6 if tier == "quick" else 1
+    for i in range(0, len(shp) - 2, stepa):
+        w = shp[i:i + 3]
+        seqs.append(("ack", w if (i // stepa) % 2 == 0 else list(reversed(w))))
+        seqs.append(("ack", [w[1], w[0]]))
+    rnd = [c.f for c in out if c.kind == "ack" and c.stream == "random"]
+    for i in range(0, min(len(rnd), 60 if tier == "quick" else 2000) - 1, 2):
+        seqs.append(("ack", [rnd[i], rnd[i + 1], rnd[i]]))
+    for gi, (k, fs) in enumerate(seqs):
+        ctxf = m.And(fs)
+        for pos, f in enumerate(fs):
+            c = Case(k, f, len(out), "reuse", group=gi, pos=pos, ctxf=ctxf)
+            c.prev = [semantic.readable(g, 200) for g in fs[:pos]]
+            out.append(c)
+    return env, uni, out
 
 
 def subterms(f):
@@ -379,10 +415,11 @@ def show_interp(I):
 class CnfRun:
     """one (formula, converter) pair on the implementation side"""
 
-    def __init__(self, case, which, env):
+    def __init__(self, case, which, env, conv=None):
         self.case, self.which = case, which
         f = case.f
-        conv = (CNFizer if which == "cnf" else PolarityCNFizer)(env)
+        if conv is None:
+            conv = (CNFizer if which == "cnf" else PolarityCNFizer)(env)
         self.err = None
         self.cs = self.formula = None
         self.iv = {}
@@ -404,6 +441,7 @@ class CnfRun:
 def run_cnf(ctx, env, cases, ig):
     mgr = env.formula_manager
     runs, lines, meta = [], [], []
+    shared = {}
     for case in cases:
         f = case.f
         try:
@@ -417,7 +455,13 @@ def run_cnf(ctx, env, cases, ig):
             ctx.count("simplify_error_" + type(e).__name__)
             continue
         for which in ("cnf", "pcnf"):
-            r = CnfRun(case, which, env)
+            conv = None
+            if case.group is not None:
+                gk = (case.group, which)
+                if gk not in shared:
+                    shared[gk] = (CNFizer if which == "cnf" else PolarityCNFizer)(env)
+                conv = shared[gk]
+            r = CnfRun(case, which, env, conv)
             runs.append(r)
             lines.append("%s %s %d %s" % (which, fw, len(tbl), tw))
             meta.append(r)
@@ -526,7 +570,7 @@ def search_cnf(ctx, env, runs, shape_ans, ig):
         f = rs[0].case.f
         crng = case_rng(ctx, idx)
         ig.rng = crng
-        interps = interps_for(f, ig, crng, k)
+        interps = interps_for(rs[0].case.ctxf, ig, crng, k)
         ilines = [wire.enc_interp(*I) for I in interps]
         for r in rs:
             nontriv = None
@@ -631,7 +675,7 @@ def search_cnf(ctx, env, runs, shape_ans, ig):
         ctx.count("S_checked_" + r.which)
         f = r.case.f
         rep = {"proc": r.which, "formula": semantic.readable(f), "index": r.case.idx, "stream": r.case.stream,
-               "interpretation": show_interp(I), "clauses": sorted(sorted(str(l) for l in c) for c in r.cs),
+               "earlier_calls_on_the_same_instance": r.case.prev, "interpretation": show_interp(I), "clauses": sorted(sorted(str(l) for l in c) for c in r.cs),
                "value_of_input": fv}
         if not f_true and sat != 0:
             w = (sat & -sat).bit_length() - 1
@@ -671,9 +715,15 @@ def run_ack(ctx, env, cases, ig):
     mgr = env.formula_manager
     lines, meta = [], []
     runs = []
+    shared = {}
     for case in cases:
         f = case.f
-        ak = Ackermannizer(env)
+        if case.group is not None:
+            if case.group not in shared:
+                shared[case.group] = Ackermannizer(env)
+            ak = shared[case.group]
+        else:
+            ak = Ackermannizer(env)
         err = res = None
         try:
             res = ak.do_ackermannization(f)
@@ -688,8 +738,12 @@ def run_ack(ctx, env, cases, ig):
             continue
         r = {"case": case, "res": res, "td": td, "err": err}
         runs.append(r)
-        lines.append("ack " + fw)
-        meta.append(("ack", r))
+        if case.pos == 0:
+            # the Lean model is per call: a reused instance (tables of the earlier calls kept) is checked by S only
+            lines.append("ack " + fw)
+            meta.append(("ack", r))
+        else:
+            ctx.count("ack_reuse_S_only")
         if rw is not None:
             lines.append("shape nouf " + rw)
             meta.append(("shape", r))
@@ -795,7 +849,7 @@ def search_ack(ctx, env, runs, ig):
         apps = sorted(td.keys(), key=lambda a: (depth(a, {}), a.node_id()))
         crng = case_rng(ctx, case.idx)
         ig.rng = crng
-        for I in interps_for(f, ig, crng, kI):
+        for I in interps_for(case.ctxf, ig, crng, kI):
             syms, fns, doms = I
             try:
                 il = wire.enc_interp(syms, fns, doms)
@@ -866,6 +920,7 @@ def search_ack(ctx, env, runs, ig):
         r, I = it["r"], it["I"]
         f = r["case"].f
         base = {"proc": "ack", "formula": semantic.readable(f), "index": r["case"].idx, "stream": r["case"].stream,
+                "earlier_calls_on_the_same_instance": r["case"].prev,
                 "result": semantic.readable(r["res"], 1500), "interpretation": show_interp(I),
                 "constants": {str(a): str(c) for a, c in r["td"].items()}}
         f_true = ans[it["f"]] == "b 1"
@@ -1003,7 +1058,11 @@ def replay(ctx, rep):
     if not sel:
         ctx.infra("replay: case %r not found" % r.get("index"))
         return
-    print("replaying case %d: %s" % (sel[0].idx, semantic.readable(sel[0].f)))
+    if sel[0].group is not None:        # instance reuse: replay the calls of the same instance up to this one
+        g, kd = sel[0].group, sel[0].kind
+        sel = [c for c in cases if c.group == g and c.kind == kd and c.idx <= r.get("index")]
+        print("instance reuse, calls so far: %s" % [semantic.readable(c.f, 120) for c in sel])
+    print("replaying case %d: %s" % (sel[-1].idx, semantic.readable(sel[-1].f)))
     ctx.rng = rng
     ctx.seed = rep.get("seed", 0)
     ctx.tier = rep.get("tier", ctx.tier)
